@@ -111,7 +111,7 @@ simulation.
 """
 
 
-@dataclass
+@dataclass(eq=False)  # groups are compared by identity, not by parent
 class SimGroup:
     parent: SimGroup | None
 
